@@ -5,7 +5,7 @@ namespace BS.Heap
 
 /-! ## `Tiles` under uniform shifts and under growth of one tile -/
 
-theorem tiles_shift (pos size pos' size' : Nat → Nat) (d : Nat) :
+theorem tiles_shift_lk (pos size pos' size' : Nat → Nat) (d : Nat) :
     ∀ (ks : List Nat) (s e : Nat), Tiles pos size ks s e →
       (∀ k ∈ ks, pos' k = pos k + d ∧ size' k = size k) →
       Tiles pos' size' ks (s + d) (e + d) := by
@@ -25,7 +25,7 @@ theorem tiles_shift (pos size pos' size' : Nat → Nat) (d : Nat) :
 theorem tiles_congr (pos size pos' size' : Nat → Nat) (ks : List Nat) (s e : Nat)
     (h : Tiles pos size ks s e) (hk : ∀ k ∈ ks, pos' k = pos k ∧ size' k = size k) :
     Tiles pos' size' ks s e := by
-  have := tiles_shift pos size pos' size' 0 ks s e h (by simpa using hk)
+  have := tiles_shift_lk pos size pos' size' 0 ks s e h (by simpa using hk)
   simpa using this
 
 /-- the tile containing position `q` grows by `d`, the later tiles shift by `d` -/
@@ -47,7 +47,7 @@ theorem tiles_grow (pos size pos' size' : Nat → Nat) (q d : Nat) :
       have hsa : size' a = size a + d := by rw [e2, if_pos (by omega)]
       refine ⟨hpa, by omega, ?_⟩
       rw [hsa]
-      have := tiles_shift pos size pos' size' d l (s + size a) e hr (by
+      have := tiles_shift_lk pos size pos' size' d l (s + size a) e hr (by
         intro k hk
         have hm := tiles_mem pos size l _ _ hr k hk
         have e3 := hp k (by simp [hk])
